@@ -246,6 +246,9 @@ func main() {
 		E2EError      string         `json:"e2e_error"`
 		SamplesE2E    []any          `json:"samples_e2e"`
 		E2ERefused    []e2eCaseJSON  `json:"e2e_refused"`
+		ChanCases     int            `json:"channel_cases"`
+		ChanKinds     map[string]int `json:"channel_kinds"`
+		SamplesChan   []any          `json:"samples_channel"`
 	}
 	m := meta{ActionHist: map[string]int{}, RuleLenHist: map[string]int{}, ShardSize: 500}
 
@@ -265,7 +268,15 @@ func main() {
 		if err := json.Unmarshal(data, &rp); err != nil {
 			panic(err)
 		}
-		if rp.Kind == "parser" {
+		if rp.Kind == "channel" {
+			var cc chanCaseJSON
+			if err := json.Unmarshal(data, &cc); err != nil {
+				panic(err)
+			}
+			writeShard(*out, "fcases", 0, "fcase", "fcase_model_ok", "fcase_prop_ok", []string{chanCaseCoq(*out, 0, cc)})
+			writeJSONL(*out, "fcases.jsonl", []any{cc})
+			m.Shards = []string{"fcases_000.v"}
+		} else if rp.Kind == "parser" {
 			writeShard(*out, "pcases", 0, "pcase", "pcase_model_ok", "pcase_prop_ok", []string{parserCase(rp.In)})
 			writeJSONL(*out, "pcases.jsonl", []any{pcase{rp.In}})
 			m.Shards = []string{"pcases_000.v"}
@@ -395,6 +406,57 @@ func main() {
 	}
 	writeJSONL(*out, "lcases.jsonl", aj)
 
+	// ---- channel stream: flags / environment / config file -> rules in effect
+	{
+		nChan, nChanMal := 400, 150
+		if *tier == "thorough" {
+			nChan, nChanMal = 6000, 2000
+		}
+		var fc []string
+		var fj []any
+		m.ChanKinds = map[string]int{}
+		add := func(c chanCaseJSON) {
+			fc = append(fc, chanCaseCoq(*out, len(fc), c))
+			fj = append(fj, c)
+			k := "flags"
+			switch {
+			case len(c.Flags) > 0 && (c.Env != "" || c.FileKind != "absent"):
+				k = "flags-over-others"
+			case len(c.Flags) > 0:
+			case c.Env != "" && c.FileKind != "absent":
+				k = "env-over-file"
+			case c.Env != "":
+				k = "env"
+			default:
+				k = "file-" + c.FileKind
+			}
+			if !c.HasMeant {
+				k += "(raw)"
+			}
+			m.ChanKinds[k]++
+		}
+		for _, c := range chanCorpus {
+			add(c)
+		}
+		for i := 0; i < nChan; i++ {
+			add(genChanCase(r))
+		}
+		for i := 0; i < nChanMal; i++ {
+			add(genChanMalformed(r))
+		}
+		m.ChanCases = len(fc)
+		for i := 0; i*m.ShardSize < len(fc); i++ {
+			hi := (i + 1) * m.ShardSize
+			if hi > len(fc) {
+				hi = len(fc)
+			}
+			writeShard(*out, "fcases", i, "fcase", "fcase_model_ok", "fcase_prop_ok", fc[i*m.ShardSize:hi])
+			m.Shards = append(m.Shards, fmt.Sprintf("fcases_%03d.v", i))
+		}
+		writeJSONL(*out, "fcases.jsonl", fj)
+		m.SamplesChan = []any{fj[0], fj[len(fj)/2], fj[len(fj)-1]}
+	}
+
 	// ---- end-to-end stream (real binary)
 	if *fwdBin != "" {
 		configs := 6
@@ -413,7 +475,8 @@ func main() {
 		}
 		if len(ec) > 0 {
 			writeShard(*out, "ecases", 0, "ecase", "ecase_model_ok", "ecase_prop_ok", ec)
-			m.Shards = append(m.Shards, "ecases_000.v")
+			writeShard(*out, "ecasesua", 0, "ecase", "ecase_model_ok_ua", "ecase_prop_ok_ua", ec)
+			m.Shards = append(m.Shards, "ecases_000.v", "ecasesua_000.v")
 			writeJSONL(*out, "ecases.jsonl", ej)
 			m.SamplesE2E = []any{ej[0], ej[len(ej)-1]}
 		}
